@@ -117,8 +117,8 @@ Print Assumptions C19_get_nth_pop_spec.
 (* copy on write of the free list itself (the free-list half of C17's "old image stays intact"):
    every page the commit of the free list writes is a portion page of the NEW list and was, in the
    old image, a free item or beyond the frontier - not live, not released, not handed out in this
-   sync - the only other write being an untouched portion of the old list re-encoded onto its own
-   page with its old link and items *)
+   sync, and never a portion page of the old list (no exception: an untouched portion that becomes
+   the head is not re-encoded) *)
 Theorem C19_sync_cow : forall cap, (2 <= cap)%nat ->
     forall s bump ops live got s' bump' ws,
     FreeList.clean_b cap s = true -> (1 <= bump)%N ->
@@ -129,14 +129,15 @@ Theorem C19_sync_cow : forall cap, (2 <= cap)%nat ->
       let pn := fst (fst w) in
       In pn (FreeList.heads (FreeList.fl_portions s')) /\
       ~ In pn live /\ ~ In pn got /\ ~ In pn (FreeList.released_of ops) /\
-      (In pn (FreeList.stack (FreeList.fl_portions s)) \/ (bump <= pn /\ pn < bump')%N
-       \/ In w (FreeList.layout (FreeList.to_disk (FreeList.fl_portions s)))).
+      ~ In pn (FreeList.heads (FreeList.fl_portions s)) /\
+      (In pn (FreeList.stack (FreeList.fl_portions s)) \/ (bump <= pn /\ pn < bump')%N).
 Proof. exact FreeList_proofs.sync_cow. Qed.
 Print Assumptions C19_sync_cow.
 
 (* what is on disk after a sync is the list the code holds in memory: Image.free_walk (equally
    FreeList::read at the next open) from the new head over the old file content with the pages
-   written by the commit replaced returns exactly the new list *)
+   written by the commit replaced returns exactly the new list (the page of an untouched portion
+   that became the head is not written and still decodes to that portion) *)
 Theorem C19_sync_disk : forall cap, (2 <= cap)%nat -> (cap <= 1022)%nat ->
     forall s bump ops live got s' bump' ws rd0 rd1 c fuel,
     FreeList.clean_b cap s = true -> (1 <= bump)%N -> (bump' <= 2 ^ 32)%N ->
